@@ -1,10 +1,54 @@
 package main
 
-// C18: GoLite targets (docs/GOLITE_NOTES.md).
+// C18: GoLite targets (docs/GOLITE_NOTES.md). Theorems: coq/props/C18_Generated.v
+// (proofs in coq/theories/C18_GenProofs.v), table in docs/audit/C18.md section "GoLite".
 func init() {
+	const fw = "github.com/notaryproject/notation-plugin-framework-go/plugin"
+	const alg = "github.com/notaryproject/notation-core-go/internal/algorithm"
 	Register("C18", []Target{
+		// descriptor equality and annotation preservation (clauses 4, 5)
 		{Pkg: "oras.land/oras-go/v2/content", Func: "Equal"},
 		{Pkg: ".../signer", Func: "isDescriptorSubset"},
 		{Pkg: ".../signer", Func: "isPayloadDescriptorValid"},
+		// key spec / hash codecs (clause 8, all six key specs)
+		{Pkg: ".../plugin/proto", Func: "DecodeKeySpec"},
+		{Pkg: ".../plugin/proto", Func: "EncodeKeySpec"},
+		{Pkg: ".../plugin/proto", Func: "HashAlgorithmFromKeySpec"},
+		{Pkg: alg, Func: "KeySpec.SignatureAlgorithm"},
+		{Pkg: alg, Func: "Algorithm.Hash"},
+		{Pkg: ".../signer", Func: "getDescriptor"}, // SignBlob: digest algorithm handed to the descriptor generator
+		// payload type (clause 3), the descriptor the generic signer signs itself
+		{Pkg: ".../internal/envelope", Func: "ValidatePayloadContentType"},
+		{Pkg: ".../internal/envelope", Func: "SanitizeTargetArtifact"},
+		// capability dispatch
+		{Pkg: fw, Func: "(*GetMetadataResponse).HasCapability"},
+		// the plugin: an opaque value; its commands are oracles (one function for every plugin value)
+		{Pkg: fw, Type: "SignPlugin", Opaque: true},
+		{Pkg: fw, Func: "SignPlugin.DescribeKey", Oracle: true},
+		{Pkg: fw, Func: "SignPlugin.GenerateSignature", Oracle: true},
+		{Pkg: fw, Func: "SignPlugin.GetMetadata", Oracle: true},
+		// key id echo, nil answers, key spec decoding (clauses 7, 8, 10)
+		{Pkg: ".../signer", Func: "(*PluginSigner).describeKey"},
+		{Pkg: ".../signer", Func: "(*PluginSigner).getKeySpec"},
+		{Pkg: ".../signer", Func: "(*PluginSigner).mergeConfig"},
+		{Pkg: "crypto/x509", Type: "Certificate", Opaque: true},
+		// make([]*x509.Certificate, n) + element assignment (signer/plugin.go:341) and crypto/x509: oracle
+		{Pkg: ".../signer", Func: "parseCertChain", Oracle: true},
+		{Pkg: ".../signer", Func: "(*pluginPrimitiveSigner).Sign"},
+		// Outside the subset, hence oracles of Sign / SignBlob:
+		// generateSignatureEnvelope: json.Marshal(any) signer/plugin.go:186, json.Unmarshal(content, &signedPayload)
+		// :230 (callee writes through a pointer), s.manifestAnnotations = .. :239 (write through the receiver),
+		// signature.ParseEnvelope / Envelope.Verify (notation-core-go interface with several methods);
+		// generateSignature: builds a GenericSigner (struct without translatable field, signer/plugin.go:166)
+		// whose Sign calls json.Marshal and notation-core-go.
+		{Pkg: ".../signer", Func: "(*PluginSigner).generateSignatureEnvelope", Oracle: true},
+		{Pkg: ".../signer", Func: "(*PluginSigner).generateSignature", Oracle: true},
+		// dispatch, nil metadata, error wrapping (clauses 7, 9, 10)
+		{Pkg: ".../signer", Func: "(*PluginSigner).Sign"},
+		{Pkg: ".../signer", Func: "(*PluginSigner).SignBlob"},
+		// kept as documentation: refused (closures, signer/plugin.go:302; forEachObjectMember needs
+		// encoding/json.Decoder and a `for dec.More()` loop). The member scan stays tied to the code by
+		// the correspondence harness (model: C18_Json.unknown_attrs).
+		{Pkg: ".../signer", Func: "areUnknownAttributesAdded"},
 	})
 }
